@@ -1552,8 +1552,10 @@ GRID = [(True, 1, 0), (True, 0, 0), (False, 0, 0), (False, 1, -1), (False, 1, 0)
 
 
 def _grid_float(x):
+    """Exact value of a (neg, m, e) triple (a Fraction: -0 and +0 compare equal, long double values are
+    not rounded)."""
     s, m, e = x
-    v = float(m) * 2.0 ** e
+    v = Fraction(m) * Fraction(2) ** e
     return -v if s else v
 
 
@@ -1584,6 +1586,22 @@ def c14_search(ctx, failing, corr, broken):
                         b[j] = (not a[j][0], 0, 0)
                 reqs.append((e['index'], fmt, [co.hex_of(*x) for x in a + b], []))
                 info.append(('cmp', e, fmt, a, b))
+            # neighbouring values: one slot differs by one unit in the last place, the slots before it tie
+            infm = co.input_formats(v['tree'], v['n_in'], fmt)
+            pmin = min(co.FMT[f][0] for f in infm) if infm else co.FMT[fmt][0]
+            for _ in range(2 if not broken else 8):
+                a = []
+                for i in range(n):
+                    M = (1 << (pmin - 1)) | rng.getrandbits(pmin - 1)
+                    a.append((rng.random() < 0.4, min(M, (1 << pmin) - 2), rng.randrange(-8, 9) - (pmin - 1)))
+                b = list(a)
+                j = rng.randrange(n) if n else 0
+                if n:
+                    b[j] = (a[j][0], a[j][1] + 1, a[j][2])
+                    if rng.random() < 0.5:
+                        a, b = b, a
+                reqs.append((e['index'], fmt, [co.hex_of(*x) for x in a + b], []))
+                info.append(('cmp', e, fmt, a, b))
     for e in hashes:
         for fmt in (32, 64, 80):
             v = e['instances'][0]['fmts'].get(str(fmt))
@@ -1609,10 +1627,12 @@ def c14_search(ctx, failing, corr, broken):
             got = [t for (l, t) in other_outs(r)][0] == 'true'
             if got != want:
                 out.append({'kind': 'c14-compare', 'entry': e['id'], 'fmt': fmt, 'index': e['index'],
-                            'left': ta, 'right': tb, 'inputs': [co.hex_of(*x) for x in a + b],
+                            'left': [str(t) for t in ta], 'right': [str(t) for t in tb],
+                            'inputs': [co.hex_of(*x) for x in a + b],
                             'native': got, 'lexicographic': want,
                             'what': '%s%s %s %s is %s on the real code; lexicographic comparison of the stored '
-                                    'components gives %s' % (e['id'], '', ta, tb, got, want)})
+                                    'components gives %s' % (e['id'], '', tuple(float(t) for t in ta),
+                                                             tuple(float(t) for t in tb), got, want)})
         elif kind == 'hash':
             prev = [t for (l, t) in other_outs(r)]
         elif kind == 'hash2' and prev is not None:
